@@ -148,11 +148,8 @@ def get_mutators():
 
 def is_relevant(node):
     """Checks whether this theory might be relevant for this node."""
-    if node.has_ident() and node.get_ident() in [
-            'declare-const', 'declare-fun', 'define-fun', 'define-fun-rec',
-            'define-funs-rec', 'define-sort', 'declare-datatype',
-            'declare-datatypes'
-    ]:
-        # the sort may be the sort of the symbol, of an argument or of a field
+    if node.has_ident():
+        # the sort may be the sort of a declared symbol, of an argument, of a
+        # field or of a variable bound by a quantifier
         return nodes.contains(node, lambda t: t in ['Int', 'Real'])
     return False
